@@ -88,6 +88,28 @@ def read_signatures(repo):
     return out
 
 
+def read_inner_calls(repo):
+    """{(cls, name): sorted names of the decorated methods `self.<m>(...)` calls DIRECTLY in the body of the
+    decorated method `name`} - what the per-method wire rule must at least re-dispatch to"""
+    sigs = read_signatures(repo)
+    out = {}
+    for rel, cname in CLASSES:
+        decorated = {g["name"] for g in sigs if g["cls"] == cname}
+        with warnings.catch_warnings():
+            warnings.simplefilter("ignore")
+            tree = ast.parse(read_source(repo, rel))
+        cls = [n for n in tree.body if isinstance(n, ast.ClassDef) and n.name == cname][0]
+        for fn in cls.body:
+            if isinstance(fn, ast.FunctionDef) and fn.name in decorated and any(is_ctx_decorator(d) for d in fn.decorator_list):
+                calls = set()
+                for n in ast.walk(fn):
+                    if isinstance(n, ast.Attribute) and isinstance(n.value, ast.Name) and n.value.id == "self" \
+                            and n.attr in decorated:
+                        calls.add(n.attr)       # called, or handed on as a bound method (`map(self.m, ..)`)
+                out[(cname, fn.name)] = sorted(calls)
+    return out
+
+
 def gen_signatures(repo):
     sigs = read_signatures(repo)
     s = HEADER + "import RigModel.Model.C18Types\nnamespace Rig.Gen.Signatures\nopen Rig.C18\n\n"
